@@ -21,6 +21,7 @@ func checkC12(p *Prog, r *Report) {
 	}
 	ruleC12Caller(p, a, r)
 	ruleC12Methods(p, a, r)
+	ruleC12StateScope(p, a, r)
 	ruleNoReflectSet(p, r, "R-C12-NOSET")
 	ruleC12Child(p, a, r)
 	ruleC12Body(p, a, r)
